@@ -54,3 +54,18 @@ package proxy
 //@   requires fresh_response: rw.$status == 0
 //@   ensures [C01] favicon_needs_session: called(@Proxy#1) ==> called(@Authenticate#1) && @Authenticate#1 == nil
 //@   ensures [C01] favicon_404: (called(@Authenticate#1) && @Authenticate#1 != nil) ==> rw.$status == 404 && !called(@Proxy#1)
+
+// C = the cookies net/http parses from the request. Afterwards the Cookie header is the ";"-join of the
+// serialisations of exactly the cookies whose name differs from cookieName, in order — or absent when
+// there is none. (That re-parsing that header yields those cookies again is net/http's business.)
+//@ func deleteCookie(req *http.Request, cookieName string)
+//@   modifies hdrmap(req.Header)
+//@   let C = @Cookies#1
+//@   let kept = @Join#1
+//@   ensures [C03] session_cookie_not_forwarded: called(@Join#1) ==> forall j :: 0 <= j && j < len(arg(@Join#1, 0)) ==> exists i :: 0 <= i && i < len(C) && C[i].Name != cookieName && arg(@Join#1, 0)[j] == cookieString(C[i].Name, C[i].Value)
+//@   ensures [C03] other_cookies_forwarded: called(@Join#1) ==> forall i :: 0 <= i && i < len(C) && C[i].Name != cookieName ==> exists j :: 0 <= j && j < len(arg(@Join#1, 0)) && arg(@Join#1, 0)[j] == cookieString(C[i].Name, C[i].Value)
+//@   ensures [C03] header_rewritten: called(@Join#1) ==> hdrIs(req.Header, "Cookie", @Join#1) && arg(@Join#1, 1) == ";"
+//@   ensures [C03] header_dropped_when_only_session_cookie: !called(@Join#1) ==> hdrAbsent(req.Header, "Cookie") && forall i :: 0 <= i && i < len(C) ==> C[i].Name == cookieName
+//@   loop 1
+//@     invariant kept_are_others: forall j :: 0 <= j && j < len(headers) ==> exists i :: 0 <= i && i < $i && C[i].Name != cookieName && headers[j] == cookieString(C[i].Name, C[i].Value)
+//@     invariant others_are_kept: forall i :: 0 <= i && i < $i && C[i].Name != cookieName ==> exists j :: 0 <= j && j < len(headers) && headers[j] == cookieString(C[i].Name, C[i].Value)
